@@ -410,9 +410,14 @@ class Runner {
 	}
 
 	// One generated case.  Returns true if the property held (or known finding).
+	bool hang_found = false;
+
 	bool
 	one(const std::string &text)
 	{
+		// a reproducible hang costs 3 watchdog periods per evaluation: do not shrink it
+		if (hang_found)
+			return true;
 		Outcome o = run_text(text, false, false);
 		evaluations++;
 		for (auto &t : o.tags)
@@ -445,10 +450,16 @@ class Runner {
 					again++;
 			if (again < 2) {
 				inconclusive++;
+				// keep the case for triage: a watchdog hit that does not reproduce is load noise or a harness race
+				char nm[256];
+				snprintf(nm, sizeof nm, "/verif/build/replays/%s-inconclusive-%d-%ld.case", spec.id.c_str(), (int) getpid(), inconclusive);
+				std::ofstream f(nm);
+				f << text;
 				return true;
 			}
 			o.sig = "hang";
 			o.msg = "case exceeds the real-time watchdog reproducibly";
+			hang_found = true;
 		} // fallthrough
 		case Outcome::VIOLATION:
 			last_fail_text = text;
